@@ -45,7 +45,7 @@ DIM_GLOBAL = {
     "testnet": [(False, G), (True, G)],
     "paranoia": [(False, G), (True, G)],
     "account": [(None, G), ("0", G), ("5", G), (str(H - 2), G), ("49", G), ("84", G), ("1_0", E), (" 7", E), ("+3", E), ("007", E), (str(H - 1), E), ("-1", B), ("x", B), (str(H), B)],
-    "interval": [(("0", "1"), G), (None, G), (("0", "0"), E), (("3", "1"), E), (("0_1", "0_3"), E), (("+1", " 2"), E), ((str(H - 1), str(H)), E), ((str(H), str(H + 1)), B),
+    "interval": [(("0", "1"), G), (None, G), (("10", "50"), G), (("0", "0"), E), (("3", "1"), E), (("0_1", "0_3"), E), (("+1", " 2"), E), ((str(H - 1), str(H)), E), ((str(H), str(H + 1)), B),
                  ((str(2**32 - 3), str(2**32 - 2)), B), (("-1", "1"), B), (("a", "1"), B), (("5",), B), ((str(H - 2), str(H + 1)), B)],
 }
 
@@ -256,6 +256,27 @@ def run(ctx):
     for cmd in ("from-entropy-hex", "from-mnemonic", "from-bip39-seed", "from-master-xprv", "new"):
         cases += ball(cmd, bound)
     cases += ball(None, 1)
+    # every not-clearly-good secret / account / interval value combined with a NEW -f target (a refused run must leave no file)
+    seen = {json.dumps([c["cmd"], c["vec"]], sort_keys=True) for c in cases}
+    for cmd in ("from-entropy-hex", "from-mnemonic", "from-bip39-seed", "from-master-xprv", "new"):
+        dims = dims_for(cmd)
+        names = list(dims)
+        for n in names:
+            if n == "file":
+                continue
+            for val, lab in dims[n][1:]:
+                if lab == G:
+                    continue
+                for fval in ("out.json", "dangling.json"):
+                    vec = {m: dims[m][0][0] for m in names}
+                    labels = {m: dims[m][0][1] for m in names}
+                    vec[n], labels[n] = val, lab
+                    vec["file"], labels["file"] = fval, (G if fval == "out.json" else E)
+                    vec = {k: (list(v) if isinstance(v, tuple) else v) for k, v in vec.items()}
+                    key = json.dumps([cmd, vec], sort_keys=True)
+                    if key not in seen:
+                        seen.add(key)
+                        cases.append({"cmd": cmd, "vec": vec, "labels": labels, "dev": 2})
     # subprocess cross-check subset: every 17th (quick) / 29th (thorough) vector plus all deviation-0 vectors
     step = 29 if ctx.thorough else 17
     nsub = 0
